@@ -73,7 +73,7 @@ func runC02(e *env) {
 			e.m.fail(oracleFailure{What: "the test binary failed: " + r.RunErr, Input: spec})
 		}
 		nvals := 0
-		var docs []string
+		var docs, vals []string
 		for _, rec := range r.Records {
 			if rec.Kind != "roundtrip" {
 				continue
@@ -90,6 +90,14 @@ func runC02(e *env) {
 			if rec.JSON != "" {
 				if j, err := coqJSON([]byte(rec.JSON)); err == nil {
 					docs = append(docs, fmt.Sprintf("(%s, %s)", coqNamedRef(obs[i].RootPkg, rec.Type), j))
+					if len(rec.Val) > 0 && len(rec.Back) > 0 {
+						v1, e1 := coqValue(rec.Val)
+						v2, e2 := coqValue(rec.Back)
+						if e1 == nil && e2 == nil {
+							vals = append(vals, fmt.Sprintf("(%s, %s, %s, %s)", coqNamedRef(obs[i].RootPkg, rec.Type), v1, j, v2))
+							e.m.count("values_run_through_the_codec_model")
+						}
+					}
 				}
 			}
 			if !rec.OK {
@@ -100,15 +108,15 @@ func runC02(e *env) {
 		}
 		e.m.Distribution["modules_run"]++
 		_ = nvals
-		cases = append(cases, fmt.Sprintf("{| c2_prog := %s;\n c2_enums := %s;\n c2_ana := %s;\n c2_docs := %s |}", obs[i].Facts, obs[i].Enums, obs[i].Ana, coqListNL(docs)))
+		cases = append(cases, fmt.Sprintf("{| c2_prog := %s;\n c2_enums := %s;\n c2_ana := %s;\n c2_docs := %s;\n c2_vals := %s |}", obs[i].Facts, obs[i].Enums, obs[i].Ana, coqListNL(docs), coqListNL(vals)))
 		inputs = append(inputs, map[string]interface{}{"module": spec, "documents": len(docs)})
 		if len(cases) == 2 {
-			e.writeCases(fmt.Sprintf("cases_C02_%d", len(e.m.CaseFiles)), anaHeader+"From GM Require Import Sem.GoJson Corr.Check_C02.\n", cases, inputs)
+			e.writeCases2(fmt.Sprintf("cases_C02_%d", len(e.m.CaseFiles)), anaHeader+"From GM Require Import Sem.GoJson Sem.GoVal Corr.Check_C02.\n", "mismatches", "roundtrip_failures", cases, inputs)
 			cases, inputs = nil, nil
 		}
 	}
 	if len(cases) > 0 {
-		e.writeCases(fmt.Sprintf("cases_C02_%d", len(e.m.CaseFiles)), anaHeader+"From GM Require Import Sem.GoJson Corr.Check_C02.\n", cases, inputs)
+		e.writeCases2(fmt.Sprintf("cases_C02_%d", len(e.m.CaseFiles)), anaHeader+"From GM Require Import Sem.GoJson Sem.GoVal Corr.Check_C02.\n", "mismatches", "roundtrip_failures", cases, inputs)
 	}
 }
 
